@@ -8,14 +8,18 @@ translated statement by statement (every `append`, `pop`, `del`, dictionary assi
 function `next_child` with its in-place increment), and the rule applied to the start node after the loop.
 
 `bstep_gen` says that this translation IS `Algo.bstep`, the step function about which `biccExact` (C15) — 3 300 lines of invariant
-proof — is stated; `bgo_gen` lifts it to the whole loop and `biccsFrom_gen` to the result of a search.  The only hypothesis is that
-no neighbour list contains the empty string (an empty node id is falsy in Python: `if nn:` would treat it as "no neighbour left";
-`GFA.read_graph` never produces one: an S line with an empty name is rejected).
+proof — is stated; `bgo_gen` lifts it to the whole loop and `biccsFrom_gen` to the result of a search.  No hypothesis.
+
+History: the first version of these theorems needed "no neighbour list contains the empty string". The source tested `if nn:`, and an
+empty node id — reachable through `add_node("")` and through an S line with an empty name, which `read_graph` accepts — is falsy in
+Python: that neighbour was treated as "no neighbour left" and `biccs` returned wrong components (the triangle ""–a–b came out as two
+components with articulation point a). The non-vacuity audit of this file exposed that the hypothesis was NOT guaranteed by the loader
+as its comment claimed; the source was repaired (`if nn is not None:`, D23) and the hypothesis is gone.
 -/
 namespace Gaftools.TieA
 open Gaftools.Algo
 
-/-- no frame of the stack lists the empty id among its neighbours -/
+/-- no frame of the stack lists the empty id among its neighbours (kept for the record: the invariant the first version needed) -/
 def FramesOk (s : BSt) : Prop := ∀ f ∈ s.stack, "" ∉ f.nbrs
 
 theorem getD_mem_of_lt {l : List V} {i : Nat} (h : i < l.length) : l.getD i "" ∈ l := by
@@ -27,28 +31,23 @@ theorem lookup_setKV_same {α β} [BEq α] [LawfulBEq α] (k : α) (v : β) (l :
     lookup k (setKV k v l) = some v := by
   simp [setKV, lookup]
 
-theorem bstep_gen (nb : V → List V) (s : BSt) (h : FramesOk s) : Gen.bstep nb s = bstep nb s := by
+theorem bstep_gen (nb : V → List V) (s : BSt) : Gen.bstep nb s = bstep nb s := by
   first
   | rfl
   | (unfold Gen.bstep bstep Gen.nextChild
      cases hs : s.stack with
      | nil => rfl
      | cons f rest =>
-       have hf : "" ∉ f.nbrs := h f (by rw [hs]; exact List.mem_cons_self)
        by_cases hp : f.ptr < f.nbrs.length
        · have hne : f.nbrs.isEmpty = false := by
            cases hn : f.nbrs with
            | nil => simp [hn] at hp
            | cons a b => rfl
          have hge : ¬ (f.ptr ≥ f.nbrs.length) := by omega
-         have hnn : f.nbrs.getD f.ptr "" ≠ "" := by
-           intro hc
-           exact hf (hc ▸ getD_mem_of_lt hp)
          simp only [Nat.add_sub_cancel]
-         generalize f.nbrs.getD f.ptr "" = nn at hnn ⊢
-         have hnn' : (some nn != some "") = true := by simp [hnn]
+         generalize f.nbrs.getD f.ptr "" = nn
          simp only [hne, hge, hp, decide_false, Bool.false_eq_true, if_false, if_true,
-           Option.isSome_some, Bool.true_and, Option.getD_some, List.tail_cons, hnn']
+           Option.isSome_some, Option.getD_some, List.tail_cons]
          by_cases h1 : (nn == f.parent) = true
          · simp only [h1, if_true]
          · simp only [h1, Bool.false_eq_true, if_false]
@@ -66,7 +65,7 @@ theorem bstep_gen (nb : V → List V) (s : BSt) (h : FramesOk s) : Gen.bstep nb 
            by_cases he : f.nbrs.isEmpty = true
            · simp [he]
            · simp [he, hge]
-         simp only [hnone, hp, if_false, Option.isSome_none, Bool.false_and, Bool.false_eq_true, Option.isNone_none, if_true,
+         simp only [hnone, hp, if_false, Option.isSome_none, Bool.false_eq_true, Option.isNone_none, if_true,
            List.tail_cons]
          by_cases h1 : rest.length > 1
          · simp only [h1, decide_true, if_true]
@@ -124,29 +123,23 @@ def genBgo (nb : V → List V) : Nat → BSt → BSt
   | 0, s => s
   | n + 1, s => if s.stack.isEmpty then s else genBgo nb n (Gen.bstep nb s)
 
-theorem bgo_gen (nb : V → List V) (hnb : ∀ v, "" ∉ nb v) (n : Nat) (s : BSt) (h : FramesOk s) : genBgo nb n s = bgo nb n s := by
+theorem bgo_gen (nb : V → List V) (n : Nat) (s : BSt) : genBgo nb n s = bgo nb n s := by
   induction n generalizing s with
   | zero => rfl
   | succ n ih =>
     unfold genBgo bgo
     split
     · rfl
-    · rw [bstep_gen nb s h]
-      exact ih _ (bstep_framesOk nb hnb s h)
+    · rw [bstep_gen nb s]
+      exact ih _
 
 /-- a whole search: the translated loop from the translated-and-checked initial state, then the translated root rule -/
-theorem biccsFrom_gen (nb : V → List V) (hnb : ∀ v, "" ∉ nb v) (root : V) (fuel : Nat) :
+theorem biccsFrom_gen (nb : V → List V) (root : V) (fuel : Nat) :
     biccsFrom nb root fuel =
       (let s := genBgo nb fuel { disc := [(root, 0)], low := [(root, 0)], visited := [root], estack := [], loc := [],
                                  stack := [⟨root, root, 0, nb root⟩], comps := [], aps := [], rootChildren := 0 }
        (s.comps, if Gen.rootIsAp s.rootChildren then insertSet root s.aps else s.aps)) := by
   unfold biccsFrom
-  have h0 : FramesOk { disc := [(root, 0)], low := [(root, 0)], visited := [root], estack := [], loc := [],
-                       stack := [⟨root, root, 0, nb root⟩], comps := [], aps := [], rootChildren := 0 } := by
-    intro f hf
-    simp at hf
-    subst hf
-    exact hnb root
-  simp only [bgo_gen nb hnb fuel _ h0, Gen.rootIsAp, decide_eq_true_eq]
+  simp only [bgo_gen nb fuel _, Gen.rootIsAp, decide_eq_true_eq]
 
 end Gaftools.TieA
